@@ -13,6 +13,6 @@ void delegateInit();
 bool delegateRequest(const Trace& tr);
 bool delegateResponse(Verdict& v);
 // Bounded exhaustive supplement for C08: every ordered pair of cached-year states, per zone (see tz.cpp).
-int sweepTzPairs(unsigned job, unsigned jobs, unsigned stride);
+int sweepTzPairs(unsigned job, unsigned jobs, unsigned stride, int onlyDb = -1, int onlyZone = -1);
 }
 #endif
